@@ -21,6 +21,7 @@ import (
 	"path/filepath"
 	"strconv"
 	"strings"
+	"sync/atomic"
 
 	"filippo.io/age"
 	"filippo.io/age/armor"
@@ -494,6 +495,10 @@ func findCase(t *Terms, rs []rcp) *termCase {
 	return nil
 }
 
+var libDecryptCalls int64
+
+// libDecrypt decrypts with the library, reading the plaintext in one of several caller styles (the result must not
+// depend on it): io.ReadAll, io.Copy, a short Read followed by io.Copy, small reads.
 func libDecrypt(w *world.World, file []byte, armored bool, id string) ([]byte, error) {
 	var in io.Reader = bytes.NewReader(file)
 	if armored {
@@ -503,7 +508,15 @@ func libDecrypt(w *world.World, file []byte, armored bool, id string) ([]byte, e
 	if err != nil {
 		return nil, err
 	}
-	return io.ReadAll(r)
+	pols := []string{"readall", "sniffcopy", "copy", "buf4096", "copyplain"}
+	res := strm.Drain(r, pols[int(atomic.AddInt64(&libDecryptCalls, 1))%len(pols)])
+	if res.Panic != nil {
+		return res.Data, fmt.Errorf("panic: %v", res.Panic)
+	}
+	if res.Err != io.EOF {
+		return res.Data, res.Err
+	}
+	return res.Data, nil
 }
 
 // GenCorpus writes the frozen corpus (run once; the result is committed).
